@@ -124,7 +124,11 @@ partial def canon (sorted : Bool) : J → String
 def hexOfString (s : String) : String := hex (s.toUTF8.toList)
 
 /-- `reply P <pshape> E <eshape> J <sexpr> => <class>` -/
-def handleReply (ts : List String) : String :=
+def handleReply (ts0 : List String) : String :=
+  -- `L <hex>` (the frame text as laid out by the harness) is informational: the model works on the tree
+  let ts := match ts0 with
+    | [a, "P", ps, "E", es, "J", js, "L", _, "=>", obs] => [a, "P", ps, "E", es, "J", js, "=>", obs]
+    | t => t
   match ts with
   | [_, "P", ps, "E", es, "J", js, "=>", obs] =>
     match parseJ js with
